@@ -228,6 +228,21 @@ def body(chk):
                         "lookup order between the two locations is not prescribed (the documentation and the code disagree); either is accepted"]
     from harness import sessioncheck
 
+    # the cache as a FILE between processes: a cache produced by a process with one locale encoding (UTF-8 / plain C) and used by a process
+    # with the other -- the cached open (use_cache=True) must still equal the uncached one (level 1.1: the image groups carry "Hz/µs")
+    from checks import C08 as codec
+    from checks import _layoutcommon as lc
+
+    lc.prepare_layouts([dict(level="1.1", images=(("HH", "F1", 3, 2), ("HH", "F2", 2, 2)))])
+    ttasks = [dict(seed=chk.seed + 640 + i, producer=pr, writer=w, reader=rd) for i, (pr, w, rd) in enumerate(
+        (pr, w, rd) for pr in ("write", "cli") for w in ("utf8", "C") for rd in ("utf8", "C"))]
+    for res in checklib.pmap(codec.transport_task, ttasks, chk.scratch):
+        t = res["task"]
+        chk.count(1, f"locale:{t['producer']}:{t['writer']}->{t['reader']}")
+        for what, msg in res["bad"]:
+            chk.violation(f"cache-across-locales:{what}:{t['producer']}:{t['writer']}->{t['reader']}",
+                          f"cache produced by {'open(create_cache=True)' if t['producer'] == 'write' else 'the CLI'}: {msg} (the uncached open of the same product works in both processes)", {"task": t})
+    chk.rule_extra.append("cache produced under UTF-8 / plain C locale encoding (option and CLI) and used by a fresh process under the other one: cached open equals the uncached one")
     sessioncheck.standard(chk)
     chk.finish(rule="scenarios = level x filesystem x producer {option, CLI adjacent, both, CLI into the user cache dir} x (rpc_write, rpc_read); each "
                     "runs produce / cached open / poisoned uncached open / cache-less open; evaluations = steps; distinct = scenarios",
